@@ -1031,7 +1031,7 @@ theorem mkBag_error (conv : Conv) (t : SType) (items : List OptItem) (e : Err) (
 /-- the state in which `load` starts the parse -/
 def loadState (conv : Conv) (pkgs : Str → Pkg) (schema : Schema) (bag : Option Bag) : PS LS :=
   { ctx := { schema := schema, privateSchema := false, handlers := [], stack := [newMatcher schema.top Option.none bag],
-             pkgs := pkgs, conv := conv },
+             pkgs := pkgs, conv := conv, bagSchema := bag.map fun _ => schema },
     stack := [], defs := [] }
 
 /-- the list of resources being read when `load` starts the parse -/
